@@ -1,3 +1,4 @@
+import re
 """CFG utilities on a Body: reachability with cuts, dominators, post-dominators, SCCs, loops.
 
 Edges are the normal (non-unwind) successors; `yield` follows the resume edge only
@@ -347,6 +348,29 @@ def _block_effects(body, bb):
                         src = ("branch", p["l"], "result")
                     elif ty.startswith(("std::option::Option<", "core::option::Option<")):
                         src = ("branch", p["l"], "option")
+            if src is None and nm.endswith("::from_residual"):
+                ty = body.locals[d["l"]]["ty"]
+                if ty.startswith(("std::result::Result<", "core::result::Result<")):
+                    src = ("agg", 1, [None])     # `?` leaving a Result function: always Err
+                elif ty.startswith(("std::option::Option<", "core::option::Option<")):
+                    src = ("agg", 0, [])         # ... an Option function: always None
+            if src is None and t["args"]:
+                # combinators that keep / map the variant of their receiver (payload shapes are forgotten)
+                a = t["args"][0]
+                p = a.get("move") or a.get("copy")
+                if p is not None and not p["p"]:
+                    if re.search(r"Result::<.*>::(map_err|map|inspect|inspect_err)$|Option::<.*>::(map|inspect|filter_none_kept)$", nm):
+                        src = ("vmap", p["l"], {0: 0, 1: 1})
+                    elif re.search(r"Option::<.*>::(ok_or|ok_or_else)$", nm):
+                        src = ("vmap", p["l"], {1: 0, 0: 1})
+                    elif re.search(r"Result::<.*>::ok$", nm):
+                        src = ("vmap", p["l"], {0: 1, 1: 0})
+                    elif re.search(r"Result::<.*>::err$", nm):
+                        src = ("vmap", p["l"], {0: 0, 1: 1})
+                    elif re.search(r"Result::<.*>::and_then$", nm):
+                        src = ("vmap", p["l"], {1: 1})
+                    elif re.search(r"Option::<.*>::and_then$", nm):
+                        src = ("vmap", p["l"], {0: 0})
             eff.append((d["l"], src))
         elif "*" not in d["p"]:
             eff.append((d["l"], ("clobber",)))
@@ -360,7 +384,7 @@ def _relevant_locals(body):
     c = getattr(body, "_relv", None)
     if c is not None:
         return c
-    rel = set()
+    rel = {0}
     for bb in range(body.nblocks):
         sw = _switch_subject(body, bb)
         if sw is not None:
@@ -376,7 +400,7 @@ def _relevant_locals(body):
                 srcs = []
                 if v[0] == "place":
                     srcs = [v[1]]
-                elif v[0] == "branch":
+                elif v[0] in ("branch", "vmap"):
                     srcs = [v[1]]
                 elif v[0] == "agg":
                     srcs = [o[1] for o in v[2] if o is not None]
@@ -426,19 +450,37 @@ def _switch_subject(body, bb):
     return None
 
 
-def explore(body, start, avoid=(), goals=None, state=None, limit=200000):
+def return_shapes(body, start, avoid=(), state=None):
+    """[(return block, shape of the returned value or None)] for every return reachable from `start` on a
+    feasible path (shape = (variant index, payload shapes) of `_0` when it is known there)"""
+    out = []
+    explore(body, start, avoid, state=state, collect=out)
+    return sorted(set(out), key=lambda x: (x[0], str(x[1])))
+
+
+def explore(body, start, avoid=(), goals=None, state=None, limit=200000, collect=None):
     """Variant-tracking forward exploration from block `start` (its statements are executed). The state maps
     a local to the shape of the enum / tuple value it holds: (variant index, (payload shapes..)), built from
     aggregates, copied through moves and field / payload projections, and through `?`.
     Returns (reached_blocks, witness_path_to_goal_or_None)."""
     avoid = set(avoid)
     goals = set(goals or ())
+    untracked = _mut_borrowed(body)
+    if state is None and start != 0:
+        # started at the arm of a `match`: on that arm the matched value has the arm's variant
+        state = {}
+        preds = body.pred[start]
+        if len(preds) == 1:
+            sw = _switch_subject(body, preds[0])
+            if sw is not None and not sw[0][2] and sw[0][1] not in untracked:
+                vals = [v for v, tg in sw[1].items() if tg == start]
+                if len(vals) == 1 and sw[2] != start:
+                    state[sw[0][1]] = (vals[0], ())
     init = tuple(sorted((state or {}).items()))
     seen = set()
     reached = set()
     stack = [(start, init, None)]
     parents = {}
-    untracked = _mut_borrowed(body)
     relevant = _relevant_locals(body)
     n = 0
     while stack:
@@ -481,6 +523,12 @@ def explore(body, start, avoid=(), goals=None, state=None, limit=200000):
                         d[l] = (0, (payload,)) if sv[0] == 1 else (1, ((0, ()),))
                 else:
                     d.pop(l, None)
+            elif v[0] == "vmap":
+                sv = d.get(v[1])
+                if sv is not None and sv[0] in v[2]:
+                    d[l] = (v[2][sv[0]], ())
+                else:
+                    d.pop(l, None)
             elif v[0] == "place":
                 sh = _shape_at(d, v)
                 if sh is not None:
@@ -489,6 +537,8 @@ def explore(body, start, avoid=(), goals=None, state=None, limit=200000):
                     d.pop(l, None)
             elif v[0] == "agg":
                 d[l] = (v[1], tuple(_shape_at(d, o) for o in v[2]))
+        if collect is not None and body.blocks[bb]["term"]["k"] == "return":
+            collect.append((bb, d.get(0)))
         succs = body.succ[bb]
         sw = _switch_subject(body, bb)
         if sw is not None:
